@@ -45,10 +45,11 @@ def listing():
     return sorted(os.listdir(CWD))
 
 
-def make_zip(path, members, deep, lead=b"", trail=b""):
+def make_zip(path, members, deep, lead=b"", trail=b"", extra="other.txt"):
     buf = io.BytesIO()
     with zipfile.ZipFile(buf, "w") as z:
-        z.writestr("archive/other.txt" if deep else "other.txt", "x")
+        for e_ in ([extra] if isinstance(extra, str) else list(extra or [])):
+            z.writestr(("archive/" + e_) if deep else e_, "x")
         for m in members:
             z.writestr(("archive/" + m) if deep else m, pickle.dumps(1) if m.endswith(".pkl") else "2")
     with open(path, "wb") as f:
@@ -76,6 +77,24 @@ for r in range(0, 6):
                                   "trailing": trail_name, "what": f"zip formats reported {got_zip}, documented table gives {want}"})
                 if (open(p, "rb").read(), listing()) != before:
                     fails.append({"face": "readonly", "members": list(members), "what": "identification changed the file or the working directory"})
+# the same table when the marker members are the only members, or sit next to tensor records only (names sharing a prefix with data.pkl)
+for r in range(1, 6):
+    for members in itertools.combinations(MARKERS, r):
+        for deep in (False, True):
+            for extra_name, extra in (("none", None), ("tensor-records", ["data/0", "data/1"])):
+                n += 1
+                p = os.path.join(CWD, "t2.zip")
+                make_zip(p, members, deep, extra=extra)
+                try:
+                    got = quiet(pg.identify_pytorch_file_format, p)
+                except Exception as e:  # noqa
+                    fails.append({"face": "table", "members": list(members), "deep": deep, "other_members": extra_name, "what": f"raises {type(e).__name__}: {e}"[:160]})
+                    continue
+                want = [name for name, need in TABLE if need <= set(members)]
+                got_zip = [g for g in got if g in ZIP_FORMATS]
+                if got_zip != want:
+                    fails.append({"face": "table", "format": next(iter(sorted(set(want) ^ set(got_zip))), "order"), "members": list(members), "deep": deep,
+                                  "other_members": extra_name, "what": f"zip formats reported {got_zip}, documented table gives {want}"})
 # leading junk: not a zip at offset 0
 n += 1
 p = os.path.join(CWD, "junk.zip")
